@@ -53,7 +53,9 @@ func ethKey(name string) *ecdsa.PrivateKey {
 // EthTx builds the embedded, signed ethereum transaction of a lock or redeem request.
 // kind "lock": a call of lock() with value amt; "redeem": a call of redeem(amt).
 // "erclock": transfer(lock contract, amt) on the token contract; "ercredeem": redeem(amt, token) on the ERC20 lock contract.
-func EthTx(kind, owner string, amt, n int64) []byte {
+func EthTx(kind, owner string, amt, n int64) []byte { return ethTx(kind, owner, amt, n, false) }
+
+func ethTx(kind, owner string, amt, n int64, noTo bool) []byte {
 	var data []byte
 	var err error
 	value := big.NewInt(0)
@@ -75,6 +77,10 @@ func EthTx(kind, owner string, amt, n int64) []byte {
 	}
 	must(err)
 	tx := ethtypes.NewTransaction(uint64(n), to, value, 300000, big.NewInt(1), data)
+	if noTo {
+		// the same call data in a contract-creation transaction: there is no recipient
+		tx = ethtypes.NewContractCreation(uint64(n), value, 300000, big.NewInt(1), data)
+	}
 	signed, err := ethtypes.SignTx(tx, ethtypes.NewEIP155Signer(big.NewInt(1)), ethKey(owner))
 	must(err)
 	raw, err := rlp.EncodeToBytes(signed)
@@ -109,20 +115,20 @@ func (g *Genesis) msgEth(t TxReq) (action.Msg, []string, bool) {
 	switch t.Kind {
 	case "ETH_LOCK":
 		if t.I("erc") != 0 {
-			raw := EthTx("erclock", t.S("owner"), t.I("amt"), t.I("n"))
+			raw := ethTx("erclock", t.S("owner"), t.I("amt"), t.I("n"), t.I("noto") != 0)
 			return &aeth.ERC20Lock{Locker: g.addr(t.S("owner")), ETHTxn: raw}, []string{t.S("owner")}, true
 		}
-		raw := EthTx("lock", t.S("owner"), t.I("amt"), t.I("n"))
+		raw := ethTx("lock", t.S("owner"), t.I("amt"), t.I("n"), t.I("noto") != 0)
 		if b, ok := t.A["rawtx"].([]byte); ok {
 			raw = b
 		}
 		return &aeth.Lock{Locker: g.addr(t.S("owner")), ETHTxn: raw}, []string{t.S("owner")}, true
 	case "ETH_REDEEM":
 		if t.I("erc") != 0 {
-			raw := EthTx("ercredeem", t.S("owner"), t.I("amt"), t.I("n"))
+			raw := ethTx("ercredeem", t.S("owner"), t.I("amt"), t.I("n"), t.I("noto") != 0)
 			return &aeth.ERC20Redeem{Owner: g.addr(t.S("owner")), To: ethcrypto.PubkeyToAddress(ethKey(t.S("owner")).PublicKey), ETHTxn: raw}, []string{t.S("owner")}, true
 		}
-		raw := EthTx("redeem", t.S("owner"), t.I("amt"), t.I("n"))
+		raw := ethTx("redeem", t.S("owner"), t.I("amt"), t.I("n"), t.I("noto") != 0)
 		return &aeth.Redeem{Owner: g.addr(t.S("owner")), To: ethcrypto.PubkeyToAddress(ethKey(t.S("owner")).PublicKey), ETHTxn: raw}, []string{t.S("owner")}, true
 	case "ETH_REPORT":
 		tk := t.S("tkind")
@@ -140,7 +146,7 @@ func (g *Genesis) msgEth(t TxReq) (action.Msg, []string, bool) {
 		return &aeth.ReportFinality{TrackerName: TrackerName(raw), Locker: g.addr(t.S("locker")), ValidatorAddress: g.addr(t.S("by")),
 			VoteIndex: idx, Success: t.I("ok") != 0}, []string{t.S("by")}, true
 	}
-	return nil, nil, false
+	return g.msgBid(t)
 }
 
 var extNames = func() map[string]string {
